@@ -106,7 +106,8 @@ pub fn run(scenario: &[Value], dir: &str, it: &mut Interner, out: &mut Vec<Value
                 cfg["temporary"] = json!(false);
                 let exe = std::env::current_exe().unwrap();
                 let st = std::process::Command::new(exe)
-                    .args(["crash-child", "--d", &d.to_string(), "--cfg", &cfg.to_string(), "--k", &op["crash_at"].to_string(), "--hist", &hp, "--log", &lp])
+                    .args(["crash-child", "--d", &d.to_string(), "--cfg", &cfg.to_string(), "--k", &op["crash_at"].to_string(), "--hist", &hp, "--log", &lp,
+                           "--abort-after", &op.get("abort_after").and_then(|x| x.as_u64()).unwrap_or(0).to_string()])
                     .stderr(std::process::Stdio::null())
                     .status();
                 let log = std::fs::read_to_string(&lp).unwrap_or_default();
@@ -153,7 +154,8 @@ pub fn run(scenario: &[Value], dir: &str, it: &mut Interner, out: &mut Vec<Value
                     }
                 }
                 drop(shadow);
-                let inflight = if !opened { json!({"c": "create"}) } else if completed < hist.len() { hist[completed].clone() } else { json!({"c": "flush"}) };
+                let between = op.get("abort_after").and_then(|x| x.as_u64()).map(|n| n as usize == completed && n > 0).unwrap_or(false);
+                let inflight = if !opened { json!({"c": "create"}) } else if completed < hist.len() && !between { hist[completed].clone() } else { json!({"c": "flush"}) };
                 out.push(json!({"t": "crash", "k": k, "aborted": aborted, "completed": completed, "opened": opened, "inflight": inflight}));
                 // reopen the real location in THIS process
                 let t0 = Instant::now();
@@ -230,11 +232,13 @@ pub fn run(scenario: &[Value], dir: &str, it: &mut Interner, out: &mut Vec<Value
 
 /// child of a crash-point run: performs the history on the real location with H1 in ABORT mode; writes one
 /// progress line per completed call (flushed), so that the parent knows which call was in flight
-pub fn crash_child(d: usize, cfg: &Value, k: i64, hist: &[Value], log_path: &str) {
+pub fn crash_child(d: usize, cfg: &Value, k: i64, hist: &[Value], log_path: &str, abort_after: usize) {
     use std::io::Write;
     let mut log = std::fs::File::create(log_path).unwrap();
     hook::set_mode(1);
-    hook::arm(k - 1);
+    if k > 0 {
+        hook::arm(k - 1);
+    }
     let mut r = match new_rln(d, cfg) {
         Ok(r) => r,
         Err(_) => {
@@ -244,10 +248,15 @@ pub fn crash_child(d: usize, cfg: &Value, k: i64, hist: &[Value], log_path: &str
     };
     let _ = writeln!(log, "opened");
     let _ = log.sync_all();
+    let mut n_done = 0usize;
     for h in hist {
         let _ = catch(AssertUnwindSafe(|| apply(&mut r, h)));
         let _ = writeln!(log, "done");
         let _ = log.sync_all();
+        n_done += 1;
+        if abort_after > 0 && n_done == abort_after {
+            std::process::abort(); // crash point BETWEEN two calls (e.g. right after a flush was acknowledged)
+        }
     }
     let _ = r.flush();
     let _ = writeln!(log, "finished");
